@@ -40,6 +40,14 @@
 #define V_INPUT(T) T nondet_##T(void);
 #endif
 
+/* reachability probes inserted mechanically by the driver (unit key `probes`) into the scratch copy of a
+ * real file: live only in the cover (vacuity) build */
+#if defined(VERIF_COVER) && !defined(VERIF_NATIVE)
+#define V_PROBE(x) x
+#else
+#define V_PROBE(x) ((void)0)
+#endif
+
 /* Control-only units (-DVERIF_CTL): the same contract text minus the buffer/list well-formedness
  * clauses.  Such a unit proves the control and ghost-accounting postconditions of a function for an
  * ARBITRARY index list (no list shape is assumed at all); the well-formedness preconditions of the
